@@ -29,7 +29,12 @@ MODEL = os.path.join(LEAN, ".lake", "build", "bin", "kmip-model")
 sys.path.insert(0, os.path.join(VERIF, "bin"))
 from props import PROPS  # noqa: E402
 
-GOENV = dict(os.environ, GOFLAGS="-mod=mod", GOPROXY="off", VERIF_MODEL=MODEL)
+# Testing aid: VERIF_OVERLAY=<go build overlay json> builds the harness against /repo with some source files
+# replaced (a mutant) without touching /repo; binaries then go to a private directory.
+OVERLAY = os.environ.get("VERIF_OVERLAY", "")
+if OVERLAY:
+    BIN = os.path.join(WORK, "bin-" + hashlib.sha1(open(OVERLAY, "rb").read()).hexdigest()[:10])
+GOENV = dict(os.environ, GOFLAGS="-mod=mod" + (" -overlay=" + OVERLAY if OVERLAY else ""), GOPROXY="off", VERIF_MODEL=MODEL)
 GOENV.pop("GOTOOLCHAIN", None) if os.environ.get("GOTOOLCHAIN") == "local" else None
 
 TRUSTED_BASE = [
@@ -86,7 +91,7 @@ def repo_fingerprint():
 def build_harness(log):
     """(re)build harness + extractor from /repo's current tree with hooks enabled."""
     os.makedirs(BIN, exist_ok=True)
-    fp = repo_fingerprint()
+    fp = repo_fingerprint() + OVERLAY
     stamp = os.path.join(BIN, "stamp")
     if os.path.exists(stamp) and open(stamp).read() == fp and all(
             os.path.exists(os.path.join(BIN, b)) for b in ("harness", "extract")):
@@ -372,8 +377,9 @@ def main():
         "wall_s": round(time.time() - t0, 2),
         "violations": len(new_viol_groups) + (1 if (exit_code == 1 and not new_viol_groups) else 0),
     }
-    os.makedirs(os.path.join(VERIF, "evidence"), exist_ok=True)
-    with open(os.path.join(VERIF, "evidence", f"{prop}.json"), "w") as f:
+    evdir = os.path.join(VERIF, "evidence") if not OVERLAY else os.path.join(WORK, "evidence-overlay")
+    os.makedirs(evdir, exist_ok=True)
+    with open(os.path.join(evdir, f"{prop}.json"), "w") as f:
         json.dump(ev, f, indent=1)
     os.makedirs(os.path.join(WORK, "logs"), exist_ok=True)
     with open(os.path.join(WORK, "logs", f"{prop}-{tier}.log"), "w") as f:
